@@ -111,6 +111,69 @@ func (rs *rawServer) serve(i int, l net.Listener) {
 	}
 }
 
+// dnsStub: a UDP DNS server that answers every A question with 127.0.0.1 (and every other question
+// with an empty answer).
+type dnsStub struct {
+	pc net.PacketConn
+	mu sync.Mutex
+	n  int
+}
+
+func newDNSStub() (*dnsStub, error) {
+	pc, err := net.ListenPacket("udp", "127.0.0.1:0")
+	if err != nil {
+		return nil, err
+	}
+	d := &dnsStub{pc: pc}
+	go func() {
+		buf := make([]byte, 1500)
+		for {
+			n, from, err := pc.ReadFrom(buf)
+			if err != nil {
+				return
+			}
+			q := buf[:n]
+			if n < 12 {
+				continue
+			}
+			// end of the first question: name labels, zero byte, type, class
+			i := 12
+			for i < n && q[i] != 0 {
+				i += int(q[i]) + 1
+			}
+			if i+5 > n {
+				continue
+			}
+			qtype := int(q[i+1])<<8 | int(q[i+2])
+			question := q[12 : i+5]
+			resp := []byte{q[0], q[1], 0x81, 0x80, 0, 1, 0, 0, 0, 0, 0, 0}
+			if qtype == 1 {
+				resp[7] = 1
+			}
+			resp = append(resp, question...)
+			if qtype == 1 {
+				resp = append(resp, 0xC0, 0x0C, 0, 1, 0, 1, 0, 0, 0, 1, 0, 4, 127, 0, 0, 1)
+			}
+			d.mu.Lock()
+			d.n++
+			d.mu.Unlock()
+			pc.WriteTo(resp, from)
+		}
+	}()
+	return d, nil
+}
+
+func (d *dnsStub) addr() string { return d.pc.LocalAddr().String() }
+func (d *dnsStub) close()       { d.pc.Close() }
+func (d *dnsStub) queries() int {
+	if d == nil {
+		return 0
+	}
+	d.mu.Lock()
+	defer d.mu.Unlock()
+	return d.n
+}
+
 // e2eCase: the flags of one run. Listener addresses are written {L0}, {L1} and substituted at run
 // time (so that a replay works with fresh ports).
 type e2eCase struct {
@@ -121,6 +184,10 @@ type e2eCase struct {
 	proxyH  [][2]string
 	maxBody int64 // -2 = flag not given
 	nDst    int
+	// Resolvers: the target names a host only the harness's DNS stub knows ({DNS} = its address); the hits
+	// reach the listener only if the -resolvers servers are the ones asked
+	Resolvers bool   `json:"resolvers"`
+	dnsTTL    string // "" = flag not given
 }
 
 var e2eKeys = []string{"x-trace-id", "X-API-KEY", "x-api-key", "X-Api-Key", "content-md5", "X_Odd.Key", "ETag", "x-UPPER-lower", "X-Request-Id", "x-request-id", "Authorization", "accept",
@@ -163,12 +230,33 @@ func genE2E(r *kit.Rng) *e2eCase {
 		}
 	}
 	if !ec.Proxy {
-		if r.Chance(0.7) {
+		// how the hits find the listener: -connect-to (one or two destinations), the harness's DNS stub through
+		// -resolvers, or the target URL itself
+		switch k := r.Pick(10); {
+		case k < 5:
 			for i := 0; i < ec.nDst; i++ {
 				groups = append(groups, []string{fmt.Sprintf("-connect-to=e2e-host.invalid:8080:{L%d}", i)})
 			}
-		} else {
+		case k < 7:
+			ec.nDst = 0
+			ec.Resolvers = true
+			groups = append(groups, []string{"-resolvers={DNS}"})
+		default:
 			ec.nDst = 0 // the target names the listener directly
+		}
+		if r.Chance(0.5) {
+			ec.dnsTTL = r.PickStr([]string{"-1", "0", "1s", "50ms"})
+			groups = append(groups, []string{"-dns-ttl=" + ec.dnsTTL})
+		}
+		// … combined with the flags that configure the connection pool and the protocol, in both values: none
+		// of them changes where the manual says the hits go (-h2c=true is left out: over cleartext HTTP/2 the
+		// raw listener cannot answer, and the unchanged code drops the dial flags for it)
+		for _, pf := range [][]string{{"-keepalive=false", "-keepalive=true", ""}, {"-http2=false", "-http2=true", ""}, {"-h2c=false", ""},
+			{"-max-connections=1", "-max-connections=2", "-max-connections=0", ""}, {"-connections=1", "-connections=10000", ""},
+			{"-insecure", "-insecure=false", ""}, {"-proxy-header=X-Via: e2e", ""}, {"-laddr=127.0.0.1", ""}, {"-session-tickets", ""}, {"-chunked", ""}} {
+			if f := r.PickStr(pf); f != "" {
+				groups = append(groups, []string{f})
+			}
 		}
 		if r.Chance(0.6) {
 			ec.maxBody = r.PickI64([]int64{-1, 0, 1, 10, 63, 64, 65, 1024})
@@ -222,6 +310,10 @@ func e2eFromArgs(args []string, proxy bool) *e2eCase {
 			}
 		case "-connect-to":
 			ec.nDst++
+		case "-resolvers":
+			ec.Resolvers = true
+		case "-dns-ttl":
+			ec.dnsTTL = val
 		case "-max-body":
 			ec.maxBody, _ = strconv.ParseInt(val, 10, 64)
 		}
@@ -274,15 +366,28 @@ func runE2ECase(c *run.Ctx, s *kit.Summary, ec *e2eCase, id int) {
 	if ec.nDst == 0 {
 		target = "http://" + rs.addr(0) + "/e2e"
 	}
+	var dns *dnsStub
+	if ec.Resolvers {
+		if dns, err = newDNSStub(); err != nil {
+			s.Skipped["e2e: cannot listen (dns)"]++
+			return
+		}
+		defer dns.close()
+		_, port, _ := net.SplitHostPort(rs.addr(0))
+		target = "http://e2e-host.test:" + port + "/e2e"
+	}
 	if ec.Proxy {
 		target = "https://e2e-host.invalid/e2e"
 	}
 	tf, out := filepath.Join(dir, "targets.txt"), filepath.Join(dir, "results.gob")
 	os.WriteFile(tf, []byte("GET "+target+"\n"), 0o644)
-	args := []string{"attack", "-targets", tf, "-output", out, "-duration", "200ms", "-rate", "40/1s", "-timeout", "2s", "-keepalive=false"}
+	args := []string{"attack", "-targets", tf, "-output", out, "-duration", "200ms", "-rate", "40/1s", "-timeout", "2s"}
 	for _, a := range ec.Args {
 		for i := range rs.ln {
 			a = strings.ReplaceAll(a, fmt.Sprintf("{L%d}", i), rs.addr(i))
+		}
+		if dns != nil {
+			a = strings.ReplaceAll(a, "{DNS}", dns.addr())
 		}
 		args = append(args, a)
 	}
@@ -313,8 +418,59 @@ func runE2ECase(c *run.Ctx, s *kit.Summary, ec *e2eCase, id int) {
 	rs.mu.Lock()
 	reqs := append([]wireReq{}, rs.reqs...)
 	rs.mu.Unlock()
+	combo := "direct"
+	switch {
+	case ec.Proxy:
+		combo = "proxy"
+	case ec.Resolvers:
+		combo = "resolvers"
+	case ec.nDst >= 1:
+		combo = fmt.Sprintf("connect-to x%d", ec.nDst)
+	}
+	for _, a := range ec.Args {
+		for _, pf := range []string{"-keepalive=false", "-http2=false", "-max-connections=1", "-connections=1", "-laddr"} {
+			if strings.HasPrefix(a, pf) {
+				s.Count("e2e:combo " + combo + " + " + pf)
+			}
+		}
+	}
+	if ec.dnsTTL != "" {
+		s.Count("e2e:combo " + combo + " + -dns-ttl=" + ec.dnsTTL)
+	}
 	if len(reqs) == 0 {
-		s.Skipped["e2e: no request reached the listener"]++
+		// the attack ran (it wrote results) but not one hit arrived where the flags say the hits go
+		nRes, nOK := 0, 0
+		if f, err := os.Open(out); err == nil {
+			dec := vegeta.NewDecoder(f)
+			for {
+				var r vegeta.Result
+				if dec.Decode(&r) != nil {
+					break
+				}
+				nRes++
+				if r.Error == "" {
+					nOK++
+				}
+			}
+			f.Close()
+		}
+		if nRes == 0 || ec.Proxy {
+			s.Skipped["e2e: no request reached the listener"]++
+			return
+		}
+		kind, what := "dns_ttl_meaning", "no hit reaches the target the URL names"
+		switch {
+		case ec.Resolvers:
+			kind, what = "resolver_meaning", "no hit reaches the host the -resolvers servers answer for (the listed resolvers are not the ones asked)"
+		case ec.nDst >= 1:
+			kind, what = "connect_to_mapping", "no hit reaches a destination of the -connect-to mapping (the attack dials something else)"
+		case ec.dnsTTL == "":
+			s.Skipped["e2e: no request reached the listener"]++
+			return
+		}
+		s.Violate(kit.Violation{Kind: kind, What: what, Input: ec, Expected: "the hits arrive at the harness's listener",
+			Observed: fmt.Sprintf("%d results (%d without error), 0 requests received; dns queries: %d", nRes, nOK, dns.queries()),
+			Key:      map[string]interface{}{"e2e": true, "combo": combo}})
 		return
 	}
 	s.Count("e2e:runs")
@@ -428,6 +584,34 @@ func textprotoCanonical(k string) string {
 	return string(b)
 }
 
+// e2eMatrix: every way the flags direct the hits (one / two -connect-to destinations, -resolvers, the URL
+// itself with a -dns-ttl) combined with every pool / protocol flag value, one at a time.
+func e2eMatrix() []*e2eCase {
+	dial := [][]string{
+		{"-connect-to=e2e-host.invalid:8080:{L0}"},
+		{"-connect-to=e2e-host.invalid:8080:{L0}", "-connect-to=e2e-host.invalid:8080:{L1}"},
+		{"-resolvers={DNS}"},
+		{"-dns-ttl=1s"},
+		{"-dns-ttl=-1", "-connect-to=e2e-host.invalid:8080:{L0}"},
+	}
+	partner := []string{"-keepalive=false", "-keepalive=true", "-http2=false", "-http2=true", "-h2c=false", "-max-connections=1", "-max-connections=2",
+		"-connections=1", "-connections=10000", "-insecure", "-proxy-header=X-Via: e2e", "-laddr=127.0.0.1", "-session-tickets"}
+	var out []*e2eCase
+	for _, d := range dial {
+		for _, p := range partner {
+			args := append([]string{"-header=x-e2e: 1"}, d...)
+			// the partner flag before and after the dial flags in turn: the order on the command line must not matter
+			if len(out)%2 == 0 {
+				args = append(args, p)
+			} else {
+				args = append([]string{p}, args...)
+			}
+			out = append(out, e2eFromArgs(args, false))
+		}
+	}
+	return out
+}
+
 func runE2E(c *run.Ctx, s *kit.Summary, r *kit.Rng) {
 	n := c.N(16, 120)
 	cases := make([]*e2eCase, n)
@@ -435,8 +619,12 @@ func runE2E(c *run.Ctx, s *kit.Summary, r *kit.Rng) {
 		cases[i] = genE2E(r)
 		s.Case("e2e:"+strings.Join(cases[i].Args, "\x00"), true)
 	}
+	for _, ec := range e2eMatrix() {
+		cases = append(cases, ec)
+		s.Case("e2e:"+strings.Join(ec.Args, "\x00"), true)
+	}
 	var mu sync.Mutex // kit.Summary is not concurrency-safe
-	sem := make(chan struct{}, 4)
+	sem := make(chan struct{}, 6)
 	var wg sync.WaitGroup
 	for i, ec := range cases {
 		wg.Add(1)
